@@ -819,7 +819,8 @@ getfn (int writeflg)
     {
       P_NOFNAME = TRUE;
       file[0] = '/';
-      strcpy (file + 1, P_FNAME);
+      strncpy (file + 1, P_FNAME, MAXFNAME - 2);
+      file[MAXFNAME - 1] = '\0';
     }
   else
     {
@@ -828,7 +829,14 @@ getfn (int writeflg)
 
       cp = file;
       while (*inptr && *inptr != NL && *inptr != SP && *inptr != HT)
-        *cp++ = *inptr++;
+        {
+          if (cp >= file + MAXFNAME - 1)
+            {
+              ED_OUTPUT (ED_DEST, "File name too long.\n");
+              return (NULL);
+            }
+          *cp++ = *inptr++;
+        }
       *cp = '\0';
 
     }
@@ -850,7 +858,7 @@ getfn (int writeflg)
 
   /* valid_read/valid_write done here */
   file2 = check_valid_path (file, current_editor, "ed_start", writeflg);
-  if (!file2)
+  if (!file2 || strlen (file2) >= MAXFNAME)
     return (NULL);
   strncpy (file, file2, MAXFNAME - 1);
   file[MAXFNAME - 1] = 0;
@@ -2630,7 +2638,8 @@ save_ed_buffer (object_t * who)
           fname = stmp->u.string;
           if (*fname == '/')
             fname++;
-          dowrite (1, P_LASTLN, fname, 0);
+          if (legal_path (fname))	/* same filter as any other file name */
+            dowrite (1, P_LASTLN, fname, 0);
         }
     }
   free_ed_buffer (who);
